@@ -70,6 +70,9 @@ def _drivers():
         "dup-wait-then-big-child": (lambda: [T.r2leaf(9), T.rdup_big(1), T.rdup_big(T.ident(1))], ("ok", [209, 501, 501]), [{"r": 2}]),
         # a limited job fails while another waits for the limit; the failure is caught and nothing else completes afterwards
         "fail-releases-to-waiter": (lambda: seq([catch_all([T.rfail(1), T.rleaf(2)], ValueError, T.recover_all)]), ("ok", [["E", 102]]), [{"r": 1}]),
+        # the re-nominated duplicate is answered by a cached ERROR (tolerated by catch_all): it consumes nothing, a waiter is queued behind it
+        "waiter-behind-failing-duplicates": (lambda: catch_all([T.rleaf(9), T.rfail(1), T.rfail(T.ident(1)), T.rleaf(T.ident(2))], ValueError, T.recover_all),
+                                             ("ok", [109, "E", "E", 102]), [{"r": 1}]),
         "cse-none": (lambda: [T.nocache(1), T.nocache(T.ident(1))], ("ok", [1, 1]), [{}]),
     }
     return D
@@ -88,7 +91,7 @@ def cases(tier: str):
             out.append({"driver": name, "limits": lim, "runs": 1})
     if tier == "quick":
         for c in out:
-            if c["driver"] in ("waiter-behind-duplicates",):
+            if c["driver"] in ("waiter-behind-duplicates", "waiter-behind-failing-duplicates"):
                 c["only_bound"] = 2  # the complete tree of this 6-job driver is explored in the thorough tier
     for name in NO_CACHE:
         for lim in D[name][2][: (1 if tier == "quick" else 3)]:
